@@ -405,4 +405,72 @@ theorem row_never (inp : Inputs ℝ) (kCN i : Nat) (thr : ℝ) (h : never thr (s
   rw [← sigmaRow_get inp kCN i j hj]
   exact (never_iff thr _).mp h _ (List.getElem_mem _)
 
+
+theorem argmaxBool_eq {β : Type} [Num β] (q : β → Bool) (xs : List β) (I : Nat) (hI : I < xs.length)
+    (h1 : q xs[I] = true) (h2 : ∀ j (hj : j < xs.length), j < I → q xs[j] = false) : argmaxBool q xs = I := by
+  obtain ⟨hc, c1, c2⟩ := argmaxBool_spec q xs ⟨xs[I], List.getElem_mem hI, h1⟩
+  rcases Nat.lt_trichotomy (argmaxBool q xs) I with h | h | h
+  · rw [h2 _ hc h] at c1; exact absurd c1 (by simp)
+  · exact h
+  · rw [c2 _ hI h] at h1; exact absurd h1 (by simp)
+
+/-- an on-grid query time selects its own column -/
+theorem timeIdx_grid (N : Nat) (dt : ℝ) (hdt : 0 < dt) (m : Nat) (hm : m < N) :
+    timeIdx (timeVec N dt) (timeAt dt m) = m := by
+  unfold timeIdx
+  rw [Snow.CNT.timeVec_real N hdt]
+  refine argmaxBool_eq _ _ m (by simpa using hm) ?_ ?_
+  · simp [timeAt]
+  · intro j hj hjm
+    simp only [List.getElem_map, List.getElem_range, timeAt, ofNat'_real, decide_eq_false_iff_not, not_le]
+    have : (j : ℝ) < m := by exact_mod_cast hjm
+    exact mul_lt_mul_of_pos_right this hdt
+
+/-- vial `i` counts as nucleated by the on-grid time `t[m]` (stats path: `t_nucleation ≤ t[m]`)
+iff column `m` of its trajectory shows ice -/
+theorem nucleated_by_iff (inp : Inputs ℝ) (kCN i : Nat) (hi : i < inp.nVials) (hdt : 0 < inp.p.dt)
+    (hJ : JumpPos inp.p) (ha : Adm (vtraj inp kCN i)) (m : Nat) (hm : m < NN inp) :
+    (∃ τ, (finalV inp kCN i).tNuc = some τ ∧ τ ≤ timeAt inp.p.dt m) ↔ 0 < (nth (vtraj inp kCN i) m).sigma := by
+  have hc := vtraj_chain inp kCN i hi
+  have h0 := fresh_start inp kCN i hi
+  have hlen : (vtraj inp kCN i).length = NN inp + 1 := vtraj_length inp kCN i
+  constructor
+  · rintro ⟨τ, hτ, hle⟩
+    cases hb : never 0 (sigmaRow inp kCN i)
+    · obtain ⟨hk, hpos, hfirst⟩ := row_cross inp kCN i 0 hb
+      have tN := tnuc_of_first_ice hc h0 ha _ (NN inp) hpos hfirst (by omega) (by omega)
+      rw [nth_final, hτ, Nat.zero_add] at tN
+      have e := Option.some.inj tN.2.1
+      rw [e] at hle
+      have := (timeAt_mono inp.p.dt hdt _ _).mp hle
+      exact ha.keeps _ m this (by omega) hpos
+    · -- no column shows ice: the record can only come from the last step, i.e. τ = N·dt > t[m]
+      exfalso
+      obtain ⟨N', hN'⟩ : ∃ N', NN inp = N' + 1 := ⟨NN inp - 1, by omega⟩
+      have hz := row_never inp kCN i 0 hb
+      have nr := no_record hc h0 hJ ha N' (by omega) (fun j hj => hz j (by omega))
+      have hz' : (nth (vtraj inp kCN i) N').sigma = 0 :=
+        le_antisymm (not_lt.mp (hz N' (by omega))) (ha.nonneg N' (by omega))
+      have st := chain_step hc N' (by omega)
+      rw [← hN', nth_final] at st
+      rcases vstep_liquid st hz' with ⟨q, _, _, ht, _⟩ | ⟨_, h2, _⟩
+      · rw [hτ] at ht
+        have e := Option.some.inj ht
+        rw [e, Nat.zero_add, timeAt_succ, ← hN'] at hle
+        have := (timeAt_mono inp.p.dt hdt _ _).mp hle
+        omega
+      · rw [h2, nr.1] at hτ; exact absurd hτ (by simp)
+  · intro hpos
+    have hb : never 0 (sigmaRow inp kCN i) = false := by
+      cases hb : never 0 (sigmaRow inp kCN i)
+      · rfl
+      · exact absurd hpos (row_never inp kCN i 0 hb m hm)
+    obtain ⟨hk, hp0, hfirst⟩ := row_cross inp kCN i 0 hb
+    have hle : crossIdx 0 (sigmaRow inp kCN i) ≤ m := by
+      by_contra hcon
+      exact hfirst m (by omega) hpos
+    have tN := tnuc_of_first_ice hc h0 ha _ (NN inp) hp0 hfirst (by omega) (by omega)
+    rw [nth_final, Nat.zero_add] at tN
+    exact ⟨_, tN.2.1, (timeAt_mono inp.p.dt hdt _ _).mpr hle⟩
+
 end Snow.FlakeStatsLemmas
